@@ -461,7 +461,11 @@ func (s *sim) newTask(spec TaskSpec, lane int) *task {
 func (s *sim) push(t *task, producer bool) {
 	after := s.cancelled.Load() // the director cancelled before this PushTask began
 	var before int
-	if after {
+	if after && !producer {
+		// compare PendingTask around the call only from a quiescent state: a lane goroutine that was just thawed
+		// may still be on its way out (it bumps the hand-over counter before it notices the cancel), and that must
+		// not be mistaken for this PushTask having enqueued something
+		synctest.Wait()
 		before = s.tl.Status().PendingTask
 	}
 	err := s.tl.PushTask(t, t.lane)
